@@ -81,7 +81,7 @@ def tasks(tier):
     ts = [("format", k) for k in range(len(arg_forms()))]
     ts += [("string",), ("activity", "print"), ("activity", "assert"), ("activity", "assume"), ("literal",),
            ("activity", "print-under-enable"), ("activity", "assert-under-enable")]
-    ts += [("grammar", t) for t in "bodxXcs "] + [("grammar-reject",), ("reset",), ("print-args",)]
+    ts += [("grammar", t) for t in "bodxXcs "] + [("grammar-reject",), ("reset",), ("print-args",), ("property-message",)]
     return ts
 
 
@@ -429,6 +429,37 @@ def unit_print_args():
                      "failures": 0 if ok else 1}]}
 
 
+def unit_property_string_message():
+    """An Assert / Assume given a plain STRING message carries that text verbatim (it is not a format string: braces are
+    literal), for every listed message; a Format message is formatted.  Closed, real simulator."""
+    from amaranth.hdl import Module, Assert, Assume, Format, Signal, ClockDomain
+    from amaranth.sim import Simulator
+    obs = []
+    msgs = ["plain text", "dict is {{}}", "expected state {IDLE}", "}", "{", "a{0}b{}", "100%", "{x!r:>4}"]
+    x = Signal(4, init=9, name="x")
+    for kind, cls, word in (("assert", Assert, "Assertion"), ("assume", Assume, "Assumption")):
+        for msg in msgs + [None, Format("x={:02x} {{}}", x)]:
+            want = f"{word} violated" + ("" if msg is None else ": " + (msg if isinstance(msg, str) else "x=09 {}"))
+            try:
+                m = Module()
+                m.domains += ClockDomain("sync", reset_less=True)
+                m.d.sync += cls(x == 0) if msg is None else cls(x == 0, msg)
+                sim = Simulator(m)
+                sim.add_clock(1e-6)
+                try:
+                    sim.run_until(2e-6)
+                    got = "no failure reported"
+                except AssertionError as e:
+                    got = str(e)
+            except Exception as e:
+                got = "raised " + repr(e)[:160]
+            ok = got == want
+            obs.append({"name": f"property-message[{kind}]::{msg if isinstance(msg, str) or msg is None else 'Format'}", "kind": "post",
+                        "status": "proved" if ok else "refuted", "backend": "closed", "time_s": 0.0,
+                        **({} if ok else {"failing_input": {"statement": f"{cls.__name__}(x == 0, {msg!r})", "reported": got, "expected": want}})})
+    return {"task": "property-message", "paths": len(obs), "solver_s": 0.0, "obligations": obs}
+
+
 def _spec_space(tier_thorough=False):
     fills = [None, "x", "0", " ", "{", "}", "é"]
     aligns = [None, "<", ">", "="]
@@ -566,6 +597,8 @@ def run_task(task):
         return unit_grammar_reject()
     if k == "reset":
         return unit_reset()
+    if k == "property-message":
+        return unit_property_string_message()
     if k == "print-args":
         return unit_print_args()
     if k == "canary-format":
